@@ -38,6 +38,46 @@ def strategy(tier):
     return strategy_(tier)
 
 
+DUPANON = "self-diff-nonempty:anonymous-data-member-duplicated"
+
+
+def duplicated_anonymous_member_only(text):
+    import re
+    lines = text.split("\n")
+    ins = [l for l in lines if re.search(r"\d+ data member (insertion|deletion)s?:", l)]
+    if not ins:
+        return False
+    # nothing but size-preserving, member-level statements may appear
+    for l in lines:
+        if re.search(r"size changed from|offset changed|was removed|was added|enumerator|base class|\\d+ Removed function|\\d+ Added function|"
+                     r"\d+ Removed variable|\d+ Added variable|type name changed|entity changed", l) and "summary:" not in l:
+            return False
+    # each inserted / deleted member is anonymous, and the pair of flat representations differs by one repetition of it
+    ok = False
+    for k, l in enumerate(lines):
+        if re.search(r"\d+ data member (insertion|deletion)s?:", l):
+            nxt = lines[k + 1].strip() if k + 1 < len(lines) else ""
+            if not re.match(r"^'(struct|union) \{", nxt):
+                return False
+    for k, l in enumerate(lines):
+        if l.strip() == "type changed from:" and k + 3 < len(lines) and lines[k + 2].strip() == "to:":
+            a, b = lines[k + 1].strip(), lines[k + 3].strip()
+            longer, shorter = (a, b) if len(a) > len(b) else (b, a)
+            extra = None
+            for mm in re.finditer(r"(struct|union) \{[^{}]*\};", longer):
+                seg = mm.group(0)
+                if longer.count(seg) != shorter.count(seg) + 1:
+                    continue
+                first = longer.replace(seg, "", 1)
+                last = longer[::-1].replace(seg[::-1], "", 1)[::-1]
+                if shorter.replace(" ", "") in (first.replace(" ", ""), last.replace(" ", "")):
+                    extra = seg
+            if not extra:
+                return False
+            ok = True
+    return ok
+
+
 def nontrivial_model(m):
     idx = M.type_index(m)
     for k, i in M.exported(m):
@@ -84,4 +124,14 @@ def run_case(case, cx):
     if cbuild.crashed(r):
         cx.violation("crash:" + cbuild.crash_key(r), r.brief())
     elif r.rc != 0 or r.out.strip():
-        cx.violation("self-diff-nonempty", r.brief())
+        # Recorded defect: the DWARF reader adds the anonymous data member of a self-referential union / struct a second
+        # time when a second translation unit defines the same type, so the corpus read from ELF (and abidw's document,
+        # which repeats the <data-member>) has it twice while the corpus read back from ABIXML has it once.  Recognised
+        # from the tool's own full report: every reported change is the insertion / deletion of an anonymous member that
+        # the other side's flat representation of the type already contains.
+        h = cbuild.tool("abidiff", ["--no-default-suppression", "--harmless", "--redundant"] +
+                        [o for o in case["opts"] if o == "--non-reachable-types"] + [a1, a2])
+        if not cbuild.crashed(h) and duplicated_anonymous_member_only(h.text()):
+            cx.violation(DUPANON, dict(r.brief(), full_report=h.text()[:1500]))
+        else:
+            cx.violation("self-diff-nonempty", r.brief())
